@@ -31,6 +31,10 @@ CLAIMED = {
    text="Proof (Lean 4): over the model of Version::diff (three loops with deletes/seen/renames maps, as in the code) C18_modified_iff and C18_added_iff prove that Modified/Added are reported exactly for the paths the set-based reading of the statement prescribes, for all pairs of states; C18_self_empty, C18_show_is_diff_prev, C18_first_all_added. Deleted/Renamed, log, file log and last-update attribution are tied by the differential run (diff/log/flog/ls -l of model vs implementation on every commit) and judged by a set-based Python specification over all ordered version pairs and all paths.",
    note="Trusted: Lean kernel + 3 standard axioms; hand-written model validated by correspondence; Python set specification.",
    technique="Lean 4 fold-invariant proofs (model = set specification) + differential history correspondence", design="§5-C18"),
+ "C10": dict(
+   text="Proof (Lean 4): C10_roundtrip — for every Unicode string s, reading (with a conforming JSON string reader, incl. \\uXXXX and surrogate pairs) what serde_json's string writer produces for s yields exactly s; C10_token_roundtrip, C10_escape_injective, C10_body_has_no_raw_control. The writer/reader models are tied to serde_json by a differential run over hostile strings and arbitrary token bodies; histories with hostile ids, file names, content directories, users, addresses and messages are run through the repository model, and the oracle re-reads every staged inventory with Python's json and compares with what was accepted and with what rocfl reads back. Three genuine defects found and repaired (known-findings.json).",
+   note="Trusted: Lean kernel + 3 standard axioms; JSON structure outside string tokens is serde_json's (exercised, not modelled); create_object trims ids — the accepted id is the trimmed one; Python json as the 'conforming parser'.",
+   technique="Lean 4 round-trip theorem over all strings + differential correspondence (writer, reader, histories)", design="§5-C10"),
 }
 NOT_YET = "not claimed yet: model/theorems for this property are still under construction in this round (see DESIGN.md §11 order of work)"
 checks = []
